@@ -43,7 +43,8 @@ TInit ==
   /\ l = 1 /\ drift = FALSE /\ driftAt = 0 /\ tno = 0 /\ kviol = {}
   /\ TLCSet(1, {})
 
-MXOf(r) == [stls |-> r.stls, cert |-> r.cert, stsMatch |-> r.stsMatch, tlsa |-> r.tlsa, slow |-> r.slow]
+MXOf(r) == [stls |-> r.stls, cert |-> r.cert, stsMatch |-> r.stsMatch, tlsa |-> r.tlsa, slow |-> r.slow,
+            cn |-> r.cn, tlsaC |-> r.tlsaC]
 
 TReset ==
   /\ IsEv("Cfg")
